@@ -221,7 +221,7 @@ int cholnzcnt(int_t neqns, int_t *xadj, int_t *adjncy,
 	   ---------------------------------------------------- */
 	parent = etpar[lownbr];
 	--weight[parent];
-	if (lflag == 1 || nchild[lownbr] >= 2) {
+	if (lflag == 1 || nchild[lownbr] >= 2 || nchild[lownbr] == 0) {
 	    /* lownbr is the first vertex of a supernode */
 	    part_super_L[xsup] = lownbr - xsup;
 	    xsup = lownbr;
